@@ -15,6 +15,7 @@ def main():
     ap.add_argument("--replay", default=None)
     a = ap.parse_args()
     tier = a.tier if a.tier in ("quick", "thorough") else "quick"
+    K.TIER = tier
     prop = a.prop.upper()
     replay_key = None
     if a.replay:
